@@ -8,6 +8,32 @@ From LV Require Import Lib.Bytes Model.C18 Proofs.C18.
 Import ListNotations.
 Local Open Scope N_scope.
 
+(* ===== The two headline statements of the plan (DESIGN.md section 8), each for EVERY state s whose blob directory
+   holds regular files only; the finer-grained theorems follow. ===== *)
+
+(* After a start: the directory is untouched; everything reported as completed has its file; every blob file
+   present is 'finished'; every row that was 'finished' and has lost its file is 'pending'; every row that is
+   'finished' now has its file. *)
+Theorem C18_setup_establishes : forall s, files_only (disk s) ->
+  disk (restart s) = disk s /\
+  (forall h, In h (completed (restart s)) -> valid_name h = true /\ is_file (disk (restart s)) h = true) /\
+  (forall h, valid_name h = true -> is_file (disk (restart s)) h = true ->
+             db_status (db (restart s)) h = Some Finished) /\
+  (forall h, db_status (db s) h = Some Finished -> is_file (disk s) h = false ->
+             db_status (db (restart s)) h = Some Pending) /\
+  (forall h, db_status (db (restart s)) h = Some Finished ->
+             valid_name h = true /\ is_file (disk (restart s)) h = true).
+Proof. exact restart_ok. Qed.
+Print Assumptions C18_setup_establishes.
+
+(* A further start with nothing changed reports exactly the blob files present and leaves the table alone. *)
+Theorem C18_setup_idempotent : forall s, files_only (disk s) ->
+  disk (restart (restart s)) = disk s /\
+  (forall h, In h (completed (restart (restart s))) <-> valid_name h = true /\ is_file (disk s) h = true) /\
+  (forall h, db_status (db (restart (restart s))) h = db_status (db (restart s)) h).
+Proof. exact setup_idempotent. Qed.
+Print Assumptions C18_setup_idempotent.
+
 (* setup never touches the blob directory *)
 Theorem C18_setup_disk_unchanged : forall s, disk (restart s) = disk s.
 Proof. exact restart_disk. Qed.
@@ -94,6 +120,7 @@ Print Assumptions C18_second_restart_general.
 (* Histories: after ANY list of completions, unfinished downloads, publishes, API deletions, stream deletions,
    external file creation/overwrite/removal, forced table rows, process deaths between a file write and its
    database write (whole or partial file, mid-publish with any k files written and j recorded) and restarts
+   (with config.save_blobs switched on or off at will)
    -- in any order and number, but with no directory planted under the blob directory -- a restart
    establishes all clauses, and one more restart reports exactly the files present. *)
 Theorem C18_history : forall ops, forallb (fun o => negb (is_ext_dir o)) ops = true ->
@@ -114,7 +141,8 @@ Print Assumptions C18_history.
 (* Between restarts: as long as only API operations run (completions, unfinished downloads, publishes, API and
    stream deletions, restarts) -- no death, nothing behind the daemon's back -- every blob file present stays
    recorded as finished at every moment; a start establishes this from ANY state without planted directories.
-   files_recorded s :=  files_only (disk s) /\ forall h, valid_name h -> is_file (disk s) h -> status h = Finished. *)
+   files_recorded s :=  files_only (disk s) /\ (forall h, valid_name h -> is_file (disk s) h -> status h = Finished)
+                        /\ no cached in-memory blob (BlobBuffer, save_blobs off) has a file of its name. *)
 Theorem C18_api_keeps_files_recorded : forall ops s, forallb is_api_op ops = true ->
   files_recorded s -> files_recorded (run s ops).
 Proof. exact run_files_recorded. Qed.
@@ -123,6 +151,14 @@ Print Assumptions C18_api_keeps_files_recorded.
 Theorem C18_start_establishes_files_recorded : forall s, files_only (disk s) -> files_recorded (restart s).
 Proof. exact restart_files_recorded. Qed.
 Print Assumptions C18_start_establishes_files_recorded.
+
+(* config.save_blobs (part of the state, chosen again at each restart) plays no part in what a start does; every
+   theorem above quantifies over all states, hence over both settings. *)
+Theorem C18_save_setting_irrelevant : forall s b,
+  disk (restart_with s b) = disk (restart s) /\ db (restart_with s b) = db (restart s) /\
+  completed (restart_with s b) = completed (restart s).
+Proof. exact restart_with_same. Qed.
+Print Assumptions C18_save_setting_irrelevant.
 
 (* Reachable states keep the directory names, the table's primary key and the completed set duplicate-free
    (so comparing the model's lists with the implementation's sets / rows is meaningful). *)
@@ -181,4 +217,13 @@ Proof. vm_compute. reflexivity. Qed.
 Example C18_first_start_underreports :
   let s := run init [OExtFile hA 3; ORestart] in
   (completed s, db_status (db s) hA, completed (restart s)) = ([], Some Finished, [hA]).
+Proof. vm_compute. reflexivity. Qed.
+
+(* with save_blobs off a completed download stays in memory: a 'pending' row, no file, nothing reported;
+   after a restart with save_blobs on the same download writes the file and is recorded *)
+Example C18_memory_only_blob :
+  let s := run init [ORestartSave false; OComplete hA 5] in
+  let t := run s [ORestartSave true; OComplete hA 5] in
+  (db_status (db s) hA, is_file (disk s) hA, completed s, db_status (db t) hA, is_file (disk t) hA, completed t)
+  = (Some Pending, false, [], Some Finished, true, [hA]).
 Proof. vm_compute. reflexivity. Qed.
